@@ -131,7 +131,9 @@ def showParse : Except ParseErr File → String
 /-- ops shared by C01 and C02:
     `print <opts> file|stmt|cmd|word <sexp…>`  model printer;
     `parse <lang> <hex>`                        model parser;
-    `reprint <opts> <lang> <hex>`               print (parse src) — both passes in the model. -/
+    `reprint <opts> <lang> <hex>`               print (parse src) — both passes in the model;
+    `specrt <opts> <lang> <hex>`                C01's statement evaluated on the model;
+    `specidem <opts> <lang> <hex>`              C02's statement evaluated on the model. -/
 def handle (args : List String) : String :=
   match args with
   | "print" :: opts :: kind :: sexp =>
@@ -164,6 +166,14 @@ def handle (args : List String) : String :=
       | .ok f => showPrint (printFile o f)
       | .error .outside => "outside"
       | .error _ => "error"
+    | _, _, _ => "bad-op"
+  | ["specrt", opts, lang, src] =>
+    match readOpts opts, readLang lang, ofHex src with
+    | some o, some l, some b => specRoundTrip o l b
+    | _, _, _ => "bad-op"
+  | ["specidem", opts, lang, src] =>
+    match readOpts opts, readLang lang, ofHex src with
+    | some o, some l, some b => specIdempotent o l b
     | _, _, _ => "bad-op"
   | _ => "bad-op"
 
